@@ -12,8 +12,9 @@
    side is that table; a reference that is not many-to-many has exactly one listed table as its SQL key holder.
    An inline reference starts at the column that declared it (the registered blueprint carries the declaring table and column).
    Notes: every owner the constructors build (table, column, index, enum item, project) is the parent of its own note when the
-   constructor returns (C05_constructed_owner_is_parent_of_its_note_partial); that no later step re-parents a note is not proved
-   (tie + identity oracle). *)
+   constructor returns (C05_constructed_owner_is_parent_of_its_note_partial), and no later step of the build stores a note or an
+   owner's note field: in the database the parser returns, every table, column, index, enum item and project is the parent of
+   its note (C05_parsed_notes_point_back, invariant NoteBack of proofs/NoteInv.v, kept by the build whatever its outcome). *)
 From PyDBML Require Import PyStr Py Heap Classes Database Tools PP Actions Build GenClasses GenGrammar Entry
   RenderSQL RuleFacts ContainerInv ContainerFull TableInv BuildInv BuildLinks.
 Import ListNotations.
@@ -96,6 +97,31 @@ Theorem C05_constructed_owner_is_parent_of_its_note_partial :
   (forall name schema alias nt hc c ab props h h' x, new_table name schema alias [] [] nt hc c ab props h = (h', Ok x) -> note_points_back h' x).
 Proof. repeat split; [exact new_column_note|exact new_index_note|exact new_enumitem_note|exact new_project_note|exact new_table_note]. Qed.
 Print Assumptions C05_constructed_owner_is_parent_of_its_note_partial.
+
+(* ... and for every source text: in the heap the parser leaves (whatever its outcome), every object of a class that owns a note
+   has a Note object whose parent is that very object *)
+From PyDBML Require Import NoteInv.
+Theorem C05_parsed_notes_point_back :
+  forall source allow sq dq h r,
+    parser_parse source allow sq dq [] = (h, r) ->
+    forall x ob n, nth_error h x = Some ob -> note_of ob = Some n -> exists nn, h_note h n = Some nn /\ n_parent nn = Some x.
+Proof. intros source allow sq dq h r H. exact (parser_parse_keeps_notes source allow sq dq [] h r NoteBack_nil H). Qed.
+Print Assumptions C05_parsed_notes_point_back.
+
+(* the invariant is kept from any heap that has it, by the build of any list of blueprints *)
+Theorem C05_build_database_keeps_note_parents :
+  forall s allow sq dq h h' r, NoteBack h -> build_database s allow sq dq h = (h', r) -> NoteBack h'.
+Proof. intros s allow sq dq h h' r NB H. exact (build_database_keeps_notes s allow sq dq h h' r NB H). Qed.
+Print Assumptions C05_build_database_keeps_note_parents.
+
+(* non-vacuity: a document with a project, an enum item, a table, a column and an index, each with a note *)
+Theorem C05_parsed_notes_example :
+  match parser_parse note_example_text false 0 1 [] with
+  | (h, Ok _) => noteback_b h = true /\ owners h = 5
+  | _ => False
+  end.
+Proof. exact parsed_notes_example. Qed.
+Print Assumptions C05_parsed_notes_example.
 
 (* the same for any list of blueprints, whatever grammar produced them; also when the build fails half-way *)
 Theorem C05_build_database_keeps_invariant :
